@@ -63,7 +63,7 @@ theorem filter_exact (p : Nat → Bool) (a : Arr) (m : Mem) (hinv : a.Inv) :
 succeeds whenever the allocator does not refuse, and yields the slice followed by the new element -/
 theorem subarray_can_grow (a : Arr) (b e x : Nat) (m m' : Mem) (hinv : a.Inv) (r : Arr)
     (hr : (a.subarray b e m).2.1 = some r) (hlive : 0 < m'.live) (halloc : m'.alloc.1 = true)
-    (hmax : r.capacity ≠ Gen.CC_MAX_ELEMENTS) :
+    (hmax : ¬ r.AtLimit) :
     (r.add x m').1 = .ok ∧ (r.add x m').2.1.abs = (a.abs.drop b).take (e - b + 1) ++ [x] ∧
     r.capacity < (r.add x m').2.1.capacity := by
   rcases Arr.subarray_spec a b e m hinv with ⟨_, _, hn, _⟩ | ⟨_, _, _, hn, _⟩ | ⟨_, hrange, _, r', h1, h2, h3, h4, h5, _⟩
@@ -86,11 +86,11 @@ theorem subarray_can_grow (a : Arr) (b e x : Nat) (m m' : Mem) (hinv : a.Inv) (r
 /-- every history on a derived array refines the ideal list started at the derived content — the
 derived array is a fully usable container of its own -/
 theorem derived_history (cfg : Spec.Seq.Cfg) (r : Arr) (ops : List Spec.Seq.Op) (m : Mem) (hinv : r.Inv)
-    (hlive : 0 < m.live) (hg : ∀ c, r.grow c ≤ Gen.CC_MAX_ELEMENTS)
+    (hlive : 0 < m.live)
     (hsort : ∀ xs, (cfg.sortFn xs).length = xs.length) :
     (r.run cfg ops m).1 = (Spec.Seq.run cfg r.abs ops ((r.run cfg ops m).1.map Spec.Seq.Out.blocked)).1 ∧
     (r.run cfg ops m).2.1.abs = (Spec.Seq.run cfg r.abs ops ((r.run cfg ops m).1.map Spec.Seq.Out.blocked)).2 := by
-  have := C01.history_refines cfg ops r m hinv hlive hg hsort
+  have := C01.history_refines cfg ops r m hinv hlive hsort
   exact ⟨this.1, this.2.1⟩
 
 end CC.Properties.C15Array
